@@ -36,6 +36,34 @@ mod hooked {
         static TID: Cell<Option<usize>> = Cell::new(None);
     }
 
+    /// The payload of the member threads.  Copying it is a scheduling point of its own in runs with
+    /// `free=2` (site "payload.clone"): a window between two accesses that contains a copy of the value -
+    /// combine's copy-modify-publish of its tuple - can then be interleaved even when the accesses
+    /// themselves have lost their hooks.
+    #[derive(Debug)]
+    pub struct P(pub usize);
+    impl Clone for P {
+        fn clone(&self) -> P {
+            callbag::verif_hooks::yield_point("payload.clone");
+            P(self.0)
+        }
+    }
+    impl Show for P {
+        fn show(&self) -> String {
+            self.0.show()
+        }
+    }
+    impl Show for (P, P) {
+        fn show(&self) -> String {
+            format!("({},{})", self.0 .0, self.1 .0)
+        }
+    }
+    impl Show for (P, P, P) {
+        fn show(&self) -> String {
+            format!("({},{},{})", self.0 .0, self.1 .0, self.2 .0)
+        }
+    }
+
     struct SchedState {
         turn: Option<usize>,
         parked: Vec<bool>,
@@ -149,12 +177,12 @@ mod hooked {
         )
     }
 
-    type Handlers = Arc<Mutex<HashMap<usize, Arc<Sink<usize>>>>>;
+    type Handlers = Arc<Mutex<HashMap<usize, Arc<Sink<P>>>>>;
 
     /// member source i: stores the handler it is given; it greets later, from its thread
-    fn mk_member(i: usize, hs: Handlers) -> Arc<Source<usize>> {
+    fn mk_member(i: usize, hs: Handlers) -> Arc<Source<P>> {
         Arc::new(
-            (move |msg: Message<Never, usize>| {
+            (move |msg: Message<Never, P>| {
                 if let Message::Handshake(h) = msg {
                     hs.lock().unwrap().insert(i, h);
                 }
@@ -163,9 +191,9 @@ mod hooked {
         )
     }
 
-    fn mk_talkback(i: usize, s: Arc<Sched>, stopped: Arc<Vec<AtomicBool>>) -> Arc<Source<usize>> {
+    fn mk_talkback(i: usize, s: Arc<Sched>, stopped: Arc<Vec<AtomicBool>>) -> Arc<Source<P>> {
         Arc::new(
-            (move |msg: Message<Never, usize>| match msg {
+            (move |msg: Message<Never, P>| match msg {
                 Message::Terminate => {
                     s.rec(format!("<up{}:T", i));
                     stopped[i].store(true, Ordering::SeqCst);
@@ -213,12 +241,21 @@ mod hooked {
         // ("slot.*"), which are finer than the interleaving model: such runs are judged by the
         // property checks on their trace alone.  Otherwise the slot accesses are pass-through, so
         // that a step of the crate is a step of the model.
-        let free = crate::geti(&kv, "free", 0) == 1;
+        let free_level = crate::geti(&kv, "free", 0);
+        let free = free_level >= 1;
+        // free=2: a copy of a payload is a scheduling point too (no model has it: such runs are judged by
+        // the property checks on the trace alone)
+        let free2 = free_level >= 2;
         let s = Sched::new(nth);
         {
             let s2 = Arc::clone(&s);
             callbag::verif_hooks::set_hook(Some(Arc::new(move |site: &'static str| {
-                if free || !site.starts_with("slot.") {
+                let on = if site == "payload.clone" {
+                    free2
+                } else {
+                    free || !site.starts_with("slot.")
+                };
+                if on {
                     yield_here(&s2)
                 }
             })));
@@ -227,30 +264,30 @@ mod hooked {
         let nmembers = if sys == "take" { 1 } else { nth };
         let stopped: Arc<Vec<AtomicBool>> =
             Arc::new((0..nmembers.max(1)).map(|_| AtomicBool::new(false)).collect());
-        let members: Vec<Arc<Source<usize>>> =
+        let members: Vec<Arc<Source<P>>> =
             (0..nmembers).map(|i| mk_member(i, Arc::clone(&hs))).collect();
 
         // build and subscribe on the controller thread (not registered: no parking, no events)
         match sys.as_str() {
             "take" => {
                 let out = take(n)(Arc::clone(&members[0]));
-                out(Message::Handshake(mk_sink::<usize>(Arc::clone(&s))));
+                out(Message::Handshake(mk_sink::<P>(Arc::clone(&s))));
                 // the single upstream greets at once, from the controller thread
                 let h = hs.lock().unwrap().get(&0).cloned().unwrap();
                 h(Message::Handshake(mk_talkback(0, Arc::clone(&s), Arc::clone(&stopped))));
             }
             "merge" => {
                 let out = merge(members.clone().into_boxed_slice());
-                out(Message::Handshake(mk_sink::<usize>(Arc::clone(&s))));
+                out(Message::Handshake(mk_sink::<P>(Arc::clone(&s))));
             }
             "takemerge" => {
                 let out = take(n)(Arc::new(merge(members.clone().into_boxed_slice())));
-                out(Message::Handshake(mk_sink::<usize>(Arc::clone(&s))));
+                out(Message::Handshake(mk_sink::<P>(Arc::clone(&s))));
             }
             "combine" => match nth {
                 2 => {
                     let out = combine((Arc::clone(&members[0]), Arc::clone(&members[1])));
-                    out(Message::Handshake(mk_sink::<(usize, usize)>(Arc::clone(&s))));
+                    out(Message::Handshake(mk_sink::<(P, P)>(Arc::clone(&s))));
                 }
                 _ => {
                     let out = combine((
@@ -258,7 +295,7 @@ mod hooked {
                         Arc::clone(&members[1]),
                         Arc::clone(&members[2]),
                     ));
-                    out(Message::Handshake(mk_sink::<(usize, usize, usize)>(Arc::clone(&s))));
+                    out(Message::Handshake(mk_sink::<(P, P, P)>(Arc::clone(&s))));
                 }
             },
             "takecombine" => match nth {
@@ -267,7 +304,7 @@ mod hooked {
                         Arc::clone(&members[0]),
                         Arc::clone(&members[1]),
                     ))));
-                    out(Message::Handshake(mk_sink::<(usize, usize)>(Arc::clone(&s))));
+                    out(Message::Handshake(mk_sink::<(P, P)>(Arc::clone(&s))));
                 }
                 _ => {
                     let out = take(n)(Arc::new(combine((
@@ -275,7 +312,7 @@ mod hooked {
                         Arc::clone(&members[1]),
                         Arc::clone(&members[2]),
                     ))));
-                    out(Message::Handshake(mk_sink::<(usize, usize, usize)>(Arc::clone(&s))));
+                    out(Message::Handshake(mk_sink::<(P, P, P)>(Arc::clone(&s))));
                 }
             },
             other => panic!("unknown sys {}", other),
@@ -309,7 +346,7 @@ mod hooked {
                                 return;
                             }
                             first = false;
-                            h(Message::Data(v as usize));
+                            h(Message::Data(P(v as usize)));
                         }
                         if !direct && !stopped[member].load(Ordering::SeqCst) {
                             match fin {
